@@ -52,7 +52,7 @@ class RoundTrip(Suite):
                 cm = [rng.choice(COMMENTS) for _ in range(rng.choice([0, 0, 1, 2, 4]))]
                 out.append({"class": f"{coords}/{t['class']}", "tree": t, "comments": cm,
                             "source": rng.choice([True, False, "my source"]), "with_comments": rng.random() < 0.85,
-                            "offset": rng.choice([0, 1, 1, 7, 10**6]), "kind": rng.choice(["text", "bytes", "path", "path-write"]),
+                            "offset": rng.choice([0, 1, 1, 7, 10**6, 2**24 - 2, 20000001, 123456789]), "kind": rng.choice(["text", "bytes", "path", "path-write"]),
                             "passes": rng.choice([1, 1, 2, 3])})
         return out
 
